@@ -116,11 +116,11 @@ EXTRA = {
  "C12": " Also: phased membership histories (skewed detection, restart-and-gossip, catch-ups) and a removed-member-memory sub-check with up to 500 members and two removal waves. The membership monitor also applies the time-aware dead-to-live rule (live implies two fresh observations at most max_interval apart, the later one after the last evaluation that found the member dead).",
  "C13": " Also: the first value of live_nodes_watch_stream() must equal the watcher's; restart-and-gossip sequences (both incarnations live at once) and catch-up calls. Predicates include ones that hold on a state without key-values (negated key presence, constant true).",
  "C14": " Also: the member may be the receiver itself (node restarted under the same id), and the sender may hold another member that the receiver has removed and remembers; a semantic end-state check (receiver holds every sender entry in the newly covered interval). Variant: the receiver has evaluated liveness, the member is dead there but not yet scheduled for deletion.",
- "C15": " Also: catch-up events (keys already held at the same version must not notify) and a harness-scheduled two-thread sub-check (a handle dropped while another thread is dispatching must be gone once the drop returns). A local write or gossip message dispatched while another thread is inside a handle drop (slow destructor of the dropped closure) must neither panic nor lose the event for the other subscriptions.",
- "C16": " Cluster ids incl. whitespace-padded, separator variants, long and multi-byte ones; plus the loopback UDP smoke with a foreign-cluster probe after a failed send. The UDP smoke also runs a second real server of another cluster whose id is the first id followed by 65,536 bytes (16-bit length prefix), seeded at the first: neither may learn the other. The id dictionary contains one pair colliding under std DefaultHasher (from a seeded change; not reachable by generation).",
- "C17": " Also a server-level sub-check: the real server on a scripted transport (peers introduced by digests, own address among the seeds, per-destination send failures, 20 s dead-node grace): per round at most 5 SYNs, none to itself or to unknown addresses, a seed reached when isolated, a dead peer probed when outnumbering (also once scheduled for deletion). The server-level sub-check also draws an application liveness predicate no peer satisfies (once a live peer is known at most one dead peer per round) and a host-name seed next to literal ones with 172 virtual seconds (the literal seed must still be contacted after the first DNS refresh).",
- "C18": " Also: members known only through an earlier catch-up and then removed; key GC after the call must not lower the frontier. A second call per case, supplied versions at u64::MAX / u64::MAX-1, and supplied entries reusing the value text already held.",
- "C19": " Also: the user holding the lock for a while, gated (back-pressured) sends during which the user must get the lock, per-destination failures; the UDP smoke sends empty / maximum-size datagrams and failing sends and requires every emitted datagram to be exactly one message. Flood events (sustained inbound traffic on a slow send path: ticks and shutdown still served) and gossip-then-shutdown; the UDP smoke probes with a valid 65,507-byte message.",
+ "C15": " Also: catch-up events (keys already held at the same version must not notify) and a harness-scheduled two-thread sub-check (a handle dropped while another thread is dispatching must be gone once the drop returns). A local write or gossip message dispatched while another thread is inside a handle drop (slow destructor of the dropped closure) must neither panic nor lose the event for the other subscriptions. Subscriptions may use zero-sized callbacks (function items recording into a thread-local log).",
+ "C16": " Cluster ids incl. whitespace-padded, separator variants, long and multi-byte ones; plus the loopback UDP smoke with a foreign-cluster probe after a failed send. The UDP smoke also runs a second real server of another cluster whose id is the first id followed by 65,536 bytes (16-bit length prefix), seeded at the first: neither may learn the other. The id dictionary contains one pair colliding under std DefaultHasher (from a seeded change; not reachable by generation). A foreign-syn-runs sub-check: own ids of 0..1,024 bytes related to the foreign id (own+suffix, prefix, case variant, one character changed) and runs of 1..1,030 foreign SYNs at one node, each of which must be rejected and change nothing.",
+ "C17": " Also a server-level sub-check: the real server on a scripted transport (peers introduced by digests, own address among the seeds, per-destination send failures, 20 s dead-node grace): per round at most 5 SYNs, none to itself or to unknown addresses, a seed reached when isolated, a dead peer probed when outnumbering (also once scheduled for deletion). The server-level sub-check also draws an application liveness predicate no peer satisfies (once a live peer is known at most one dead peer per round) and a host-name seed next to literal ones with 172 virtual seconds (the literal seed must still be contacted after the first DNS refresh). The server-level sub-check also uses a wildcard listen address (0.0.0.0:port, advertised 127.0.0.1:port), a seed that is a dead peer, and a case-seeded peer-selection generator (hook verif_set_server_seed); because the pools are hash-randomised sets a failing case is re-evaluated up to 40 times.",
+ "C18": " Also: members known only through an earlier catch-up and then removed; key GC after the call must not lower the frontier. A second call per case, supplied versions at u64::MAX / u64::MAX-1, and supplied entries reusing the value text already held. live_nodes() and the members listed by the watch channel are compared right before and right after each call (no evaluation in between).",
+ "C19": " Also: the user holding the lock for a while, gated (back-pressured) sends during which the user must get the lock, per-destination failures; the UDP smoke sends empty / maximum-size datagrams and failing sends and requires every emitted datagram to be exactly one message. Flood events (sustained inbound traffic on a slow send path: ticks and shutdown still served) and gossip-then-shutdown; the UDP smoke probes with a valid 65,507-byte message. Scripts include bursts of up to 1,000 queued gossip requests followed by a shutdown; the server-level targets sub-check (per-destination send failures must not truncate a round) also runs for C19.",
  "C20": " Pair-level cases include deltas about the receiver itself (restart under the same id).",
 }
 for k, extra in EXTRA.items():
